@@ -279,6 +279,38 @@ def run(tier, seed, rng):
             failures.append(dict(kind='oracle', sig='context-delimiter', what=f"{val}: the string ends at the first match of its delimiter in the string itself, but {kind} gives {json.dumps(o)[:300]} (expected encoding {raw.hex()})",
                                  classes="class Z%d(Packet):\n    p = Data(1)\n    d = Data(until_marker=re.compile(%r), include_delimiter=True)\n    t = Int(1)\n" % (zi, pat),
                                  cls=f"Z{zi}", value=val, raw=raw.hex(), offset=0, observed=o))
+    # ---- read-to-end strings: every body, those ending in a newline and those longer than the class's search window included, comes
+    # back whole (the end of the input is the delimiter, not what the regex "$" matches in python)
+    esrc = ("class ELine(Packet):\n    kind = Int(1)\n    text = Data(until_marker=re.compile(b'$'))\n"
+            "class EWin(Packet):\n    __bisturi__ = {'search_buffer_length': 3}\n    kind = Int(1)\n    text = Data(until_marker=re.compile(b'$'))\n"
+            "class EGen(Packet):\n    __bisturi__ = {'generate_for_pack': False, 'generate_for_unpack': False}\n    kind = Int(1)\n    text = Data(until_marker=re.compile(b'$'))\n"
+            "class EHdr(Packet):\n    n = Int(1)\n    k = Data(n)\n"
+            "class EMsg(Packet):\n    h = Ref(EHdr)\n    body = Data(until_marker=re.compile(b'$'))\n")
+    ebodies = [b'', b'x', b'x\n', b'\n', b'a\n\n', b'\r\n', b'a\nb', b'\nab', b'$', b'abcdefgh\n', b'\x00\xff\n', b'line one\nline two\n']
+    ecases, emeta = [], []
+    for cls in ('ELine', 'EWin', 'EGen', 'EMsg'):
+        for body in ebodies:
+            if cls == 'EMsg':
+                val = f"EMsg(h=EHdr(n=2, k=b'hi'), body={body!r})"; raw = b'\x02hi' + body
+                want = {'h': {'p': 'EHdr', 'f': [['n', 2], ['k', {'x': b'hi'.hex()}]]}, 'body': {'x': body.hex()}}
+            else:
+                val = f"{cls}(kind=7, text={body!r})"; raw = b'\x07' + body
+                want = {'kind': 7, 'text': {'x': body.hex()}}
+            for kind, case in (('pack', dict(cls=cls, op='pack', value={"py": val})), ('unpack', dict(cls=cls, op='roundtrip', raw=raw.hex(), offset=0)),
+                               ('consistency', dict(cls=cls, op='consistency', value={"py": val}))):
+                ecases.append(case); emeta.append((kind, cls, val, raw, want))
+    eres = run_impl(os.path.join(VERIF, 'harness', 'impl_pkt.py'), dict(header=decl.HEADER_PY, blocks=[dict(name='eos', src=esrc)], modname='c02e', cases=ecases))
+    dist['read_to_end_values'] = len(ecases) // 3
+    for (kind, cls, val, raw, want), o in zip(emeta, eres['outcomes']):
+        if kind == 'pack':
+            ok = o.get('ok') == raw.hex()
+        elif kind == 'unpack':
+            ok = 'ok' in o and dict(o['ok']['f']) == want and o.get('end') == len(raw)
+        else:
+            ok = isinstance(o.get('ok'), dict) and o['ok'].get('dont_raise') is True and o['ok'].get('plain') is True
+        if not ok:
+            failures.append(dict(kind='oracle', sig='read-to-end', what=f"{val}: a read-to-end string takes everything up to the end of the input, but {kind} gives {json.dumps(o)[:300]} (expected encoding {raw.hex()})",
+                                 classes=esrc, cls=cls, value=val, raw=raw.hex(), offset=0, observed=o))
     return dict(evaluations=len(records), distinct_nontrivial=dist['packed'],
                 rule=("random class tables over the language without regex / read-to-end fields and without a search window, with and without "
                       "positioning, code generation options varied; per class several values consistent with the declaration (lengths, counts, "
